@@ -106,60 +106,6 @@ package redisemu
 
 // ---- keyspace dictionary (contracts assumed here; proved against the dict representation under C04)
 
-//@ func newRedisDict
-//@ trusted allocation of an empty table
-//@ modifies alloc
-//@ ensures result != nil && result.count == 0 && result.scratch && !result.dirty && !result.keyspace
-
-//@ func redisDict.get
-//@ trusted
-//@ pure
-//@ requires rd != nil
-//@ requires [C08,C16] locked: held
-//@ ensures rd.count == 0 ==> !exists
-
-//@ func redisDict.store
-//@ trusted
-//@ requires rd != nil
-//@ requires [C08,C16] locked: held
-// an object installed in a keyspace is a key object carrying the newest version of its store (C10, C06)
-//@ requires [C10,C06] newest: rd.keyspace ==> (istype(val, *storeKey) && unbox(val, *storeKey) != nil && unbox(val, *storeKey).id == rd.owner.dataObjectNumber)
-//@ modifies redisDict.buckets redisDict.count redisDict.removals redisDictItem alloc
-//@ ensures rd.count >= 1
-//@ ensures others: forall r *redisDict :: r != rd ==> r.count == old(r.count)
-//@ effect rd.dirty = true
-//@ effect if !rd.scratch : mutated = true
-
-//@ func redisDict.remove
-//@ trusted
-//@ requires rd != nil
-//@ requires [C08,C16] locked: held
-//@ modifies redisDict.buckets redisDict.count redisDict.removals redisDictItem alloc
-//@ ensures rd.count >= 0
-//@ effect if exists : rd.dirty = true
-//@ effect if exists && !rd.scratch : mutated = true
-//@ effect if exists && rd.keyspace : removedKey = true
-
-//@ func redisDict.createIterator
-//@ trusted
-//@ requires rd != nil
-//@ requires [C08,C16] locked: held
-//@ modifies alloc redisDictIter
-//@ ensures result != nil && result.dict == rd
-
-//@ func redisDictIter.next
-//@ trusted
-//@ requires rdi != nil && rdi.dict != nil
-//@ requires [C08,C16] locked: held
-//@ modifies redisDictIter.bucketNumber redisDictIter.key redisDictIter.value
-
-//@ func redisDict.clone
-//@ trusted
-//@ requires rd != nil
-//@ requires [C08,C16] locked: held
-//@ modifies alloc
-//@ ensures result != nil && result.scratch && result.count == rd.count && !result.keyspace
-
 //@ func redisDict.pickRandomItems
 //@ trusted
 //@ pure
